@@ -41,7 +41,7 @@ func KeysOf(steps []Step) []string {
 // WellFormed mirrors OxiaDb.tla!WellFormed (the leader's validation of Write/WriteBlock).
 func WellFormed(r *Req) bool {
 	for _, p := range r.Puts {
-		if len(p.Deltas) > 0 && (!p.Pkey || p.Deltas[0] == 0) {
+		if len(p.Deltas) > 0 && (!p.Pkey || p.Delta(0) == 0) {
 			return false
 		}
 	}
